@@ -312,4 +312,17 @@ theorem radialEval_eq_sum (n m : Nat) (hm : m ≤ n) (hpar : (n - m) % 2 = 0) (r
   rw [e]
   ring
 
+/-- the reduced polynomial of an `m = 0` mode at `t = 0`: only the constant term of the factorial form survives -/
+theorem reducedEval_zero (k : Nat) : reducedEval (2 * k) 0 k = (-1 : Rat) ^ k := by
+  rw [reducedEval_eq_sum (2 * k) k (le_refl _) 0]
+  rw [Finset.sum_eq_single k]
+  · have e1 : 2 * k - k = k := by omega
+    have hk : ((k.factorial : Rat)) ≠ 0 := by positivity
+    simp only [e1, Nat.sub_self, Nat.factorial_zero, Nat.cast_one, mul_one, pow_zero]
+    field_simp
+  · intro j hj hne
+    have : j < k := by have := Finset.mem_range.mp hj; omega
+    rw [zero_pow (by omega), mul_zero]
+  · intro h; exact absurd (Finset.mem_range.mpr (Nat.lt_succ_self k)) h
+
 end HcipyVerif.Zernike
